@@ -1,6 +1,6 @@
 """C15 — literals, parsing and constant-driven deduction yield exactly the written value.
 
-Decided (structure of the parser's tables and type-level deductions; no token is ever evaluated):
+Decided (structure of the parser's tables, type-level deductions, and the types of a stratified sample of literals):
  A1 EQ  make_scale_op(B)(x) == x * B                          (per-digit scale is the base)
  A2 EQ  make_scale_op_chunk<Sum>(B)(x) == x * B^stride(B)     (chunk factor agrees with the stride scan_base announces)
  A3 EQ  make_char_to_digit_positive(B)(c) == digit value of c, make_char_to_digit_negative(B)(c) == -digit value,
@@ -10,8 +10,12 @@ Decided (structure of the parser's tables and type-level deductions; no token is
  T      types deduced from values: make_elastic_integer, make_elastic_scaled_integer, make_scaled_integer,
         make_static_integer, make_static_number, CTAD — digits = numeric_limits<Input>::digits, signedness adopted,
         exponent preserved.
-Not decided: that a given token or constant<V> yields exactly its value / used-digit count (that is execution of
-parse, used_digits, trailing_bits, descale on values).
+ L      the TYPE of a user-defined literal (digits, exponent, radix) and its constant rep, for a stratified token sample
+        (base x length x separator placement before/after the radix point x leading/trailing zeros), against exact
+        rational arithmetic on the spelling.  These are compile-fail witnesses: the front end computes the literal's
+        type while type-checking.  They settle the sampled tokens only, not "every well-formed token".
+Not decided: that every token or constant<V> yields exactly its value / used-digit count (scan_base's and parse_string's
+loops over the characters are not analysed; the sample covers the structural cases the scan distinguishes).
 """
 import random, re, os, math
 from vlib import tc, kern, ir, facts as factmod, report
@@ -113,6 +117,118 @@ def gen_facts():
     return F
 
 
+def _sep(digs, every, rng=None):
+    """insert digit separators into a digit string: every `every` digits from the right (0: none)"""
+    if not every or len(digs) <= every:
+        return digs
+    out, k = "", 0
+    for ch in reversed(digs):
+        if k and k % every == 0:
+            out = "'" + out
+        out = ch + out
+        k += 1
+    return out
+
+
+def literal_tokens(tier, rng):
+    """stratified tokens: base x length x separator placement (none / before the point / after the point / both) x
+    trailing and leading zeros; each with the exact (significand, exponent, radix) its spelling denotes"""
+    T = []   # (token text without suffix, suffix, N, base, fractional digits)
+    nper = 2 if tier == "quick" else 8
+    for n in (1, 2, 3, 5, 9, 10, 18, 19):
+        for k in range(nper):
+            d = str(rng.randint(1, 9)) + "".join(rng.choice("0123456789") for _ in range(n - 1))
+            if int(d) > 2 ** 63 - 1:
+                d = "9" + d[1:-1]
+            for ev in (0, 3):
+                T.append((_sep(d, ev), "_cnl", int(d), 10, 0))
+    for ip in (0, 1, 2, 4, 7):
+        for fp in (1, 2, 3, 4, 6, 9, 12):
+            for k in range(nper):
+                a = "" if ip == 0 else str(rng.randint(1, 9)) + "".join(rng.choice("0123456789") for _ in range(ip - 1))
+                b = "".join(rng.choice("0123456789") for _ in range(fp))
+                if k % 3 == 1:
+                    b = "0" * (fp - 1) + str(rng.randint(1, 9))      # leading zeros after the point
+                if k % 3 == 2 and fp > 1:
+                    b = b[:-1].rstrip("0") + "5" + "0" * (fp - len(b[:-1].rstrip("0")) - 1)   # trailing zeros
+                    b = (b + "0" * fp)[:fp]
+                if int((a or "0") + b) == 0:
+                    continue
+                for (ea, eb) in ((0, 0), (3, 0), (0, 3), (3, 3), (0, 1)):
+                    if (ea and len(a) <= ea) or (eb and len(b) <= eb):
+                        continue
+                    tok = (_sep(a, ea) if a else ("0" if k % 2 else "")) + "." + "'".join(b[i:i + eb] for i in range(0, len(b), eb)) if eb else (_sep(a, ea) if a else ("0" if k % 2 else "")) + "." + b
+                    T.append((tok, "_cnl", int((a or "0") + b), 10, fp))
+    for base, pre, alphabet, lens in ((16, "0x", "0123456789abcdefABCDEF", (1, 2, 4, 8, 15)), (8, "0", "01234567", (1, 2, 5, 11, 20)), (2, "0b", "01", (1, 3, 8, 31, 62))):
+        for n in lens:
+            for k in range(nper):
+                d = rng.choice(alphabet.replace("0", "")) + "".join(rng.choice(alphabet) for _ in range(n - 1))
+                if k == 1 and n > 1:
+                    d = d[0] + "0" * (n - 1)
+                for ev in (0, 4):
+                    T.append(((pre.upper() if k % 2 and base != 8 else pre) + _sep(d, ev), "_cnl", int(d, base), base, 0))
+                T.append((pre + _sep(d, 4), "_cnl2", int(d, base), base, 0))
+    for f in range(1, 13):
+        for k in range(nper):
+            num = rng.randrange(1, 2 ** (f + 6), 2)
+            # num / 2^f has exactly f decimal digits after the point
+            scaled = num * 5 ** f
+            ds = str(scaled).rjust(f + 1, "0")
+            a, b = ds[:-f], ds[-f:]
+            for (ea, eb) in ((0, 0), (0, 3), (3, 3), (0, 2)):
+                if (ea and len(a) <= ea) or (eb and len(b) <= eb):
+                    continue
+                tok = _sep(a, ea) + "." + ("'".join(b[i:i + eb] for i in range(0, len(b), eb)) if eb else b)
+                T.append((tok, "_cnl2", scaled, 10, f))
+    seen, out = set(), []
+    for t in T:
+        if (t[0], t[1]) not in seen:
+            seen.add((t[0], t[1]))
+            out.append(t)
+    return out
+
+
+def literal_oracle(N, base, f, suffix):
+    """the value N * base^-f as the normalised (significand, exponent, radix) the literal's type and rep must carry"""
+    from fractions import Fraction
+    V = Fraction(N, base ** f)
+    R = base if suffix == "_cnl" else 2
+    e = 0
+    while V.denominator != 1:
+        V *= R
+        e -= 1
+        if e < -200:
+            return None          # not representable in radix R (the library must reject it)
+    M = V.numerator
+    while M % R == 0:
+        M //= R
+        e += 1
+    return M, e, R
+
+
+def gen_literal_facts(tier, rng):
+    """Type-level facts about user-defined literals: the exponent, the radix and the digit count are part of the
+    literal's TYPE (scaled_integer<elastic_integer<digits>, power<exponent, radix>>); the rep is a constant expression.
+    The front end's constant evaluator computes them while type-checking; the oracle is exact rational arithmetic on the
+    token's spelling."""
+    F = []
+    decl = "using namespace cnl::literals;"
+    for tok, suf, N, base, f in literal_tokens(tier, rng):
+        o = literal_oracle(N, base, f, suf)
+        if o is None:
+            continue
+        M, e, R = o
+        lit = tok + suf
+        ty = "decltype(%s)" % lit
+        meta = dict(token=lit, denotes="%d * %d^%d" % (M, R, e))
+        F.append(factmod.Fact("literal/%s/exponent" % lit, "cnl::_impl::tag_of_t<%s>::exponent" % ty, e, decls=decl, meta=meta))
+        F.append(factmod.Fact("literal/%s/radix" % lit, "cnl::_impl::tag_of_t<%s>::radix" % ty, R, decls=decl, meta=meta))
+        F.append(factmod.Fact("literal/%s/digits" % lit, "cnl::digits_v<%s>" % ty, M.bit_length(), decls=decl, meta=meta))
+        if M < 2 ** 63:
+            F.append(factmod.Fact("literal/%s/rep" % lit, "static_cast<long long>(cnl::_impl::to_rep(cnl::_impl::to_rep(%s)))" % lit, M, decls=decl, meta=meta))
+    return F
+
+
 def run(tier, seed, work):
     rng = random.Random(seed)
     r = report.Run(PROP, tier, seed, "other")
@@ -138,6 +254,8 @@ def run(tier, seed, work):
     common.check_controls(r, ctl)
     n = common.settle_eq(r, obs)
     F = gen_facts()
+    LF = gen_literal_facts(tier, rng)
+    F = F + LF
     fctl = common.fact_controls()
     factmod.run_facts(work, F + fctl)
     common.check_fact_controls(r, fctl)
@@ -145,11 +263,12 @@ def run(tier, seed, work):
     common.floor_check(r, "scan_base rows", len(rows), 4)
     common.floor_check(r, "EQ table kernels proved", n["proved"], 36)
     common.floor_check(r, "deduction facts proved", nf["proved"], 120)
+    common.floor_check(r, "literal facts generated", len(LF), 600 if tier == "quick" else 3000)
     r.coverage = {
-        "explanation": "Table agreement inside the parser (per-digit scale == base, chunk factor == base^stride with the stride read from scan_base's own call sites, digit tables are correct and mutual negations, chunk fits the accumulator, bit estimate >= log2(base) per digit) and type-level deductions from values. That a given token or constant yields exactly its value is NOT decided (it would require evaluating the parser on tokens).",
+        "explanation": "Literal types and constant reps for a stratified token sample (compile-time witnesses against exact rational arithmetic on the spelling). Table agreement inside the parser (per-digit scale == base, chunk factor == base^stride with the stride read from scan_base's own call sites, digit tables are correct and mutual negations, chunk fits the accumulator, bit estimate >= log2(base) per digit) and type-level deductions from values. That EVERY token or constant yields exactly its value is not decided: the scan/parse loops are not analysed, the literal witnesses cover the sampled spellings only.",
         "evaluations": len(rows) + len(obs) + len(F), "distinct_nontrivial": len(rows) + n["proved"] + nf["proved"],
         "rule": "non-trivial = extracted table row, proved table kernel, proved deduction fact",
-        "scan_rows": rows, "eq_kernels": len(obs), "eq_proved": n["proved"], "deduction_facts": len(F), "deduction_facts_proved": nf["proved"],
+        "scan_rows": rows, "eq_kernels": len(obs), "eq_proved": n["proved"], "literal_facts": len(LF), "deduction_facts": len(F), "deduction_facts_proved": nf["proved"],
         "samples": [{"key": o.key, "cnl": o.cnl, "ref": o.refs[0]} for o in obs[:5]], "exhaustive": False,
     }
     return r.finish()
